@@ -966,7 +966,7 @@ class Message:
             else:
                 next_payload_type = Payload.Type.NONE
 
-            payloads_data += pack('>BBH', next_payload_type, 0, len(payload_data) + 4)
+            payloads_data += pack('>BBH', next_payload_type, payload.critical << 7, len(payload_data) + 4)
             payloads_data += payload_data
         return payloads_data
 
